@@ -17,6 +17,7 @@ IsHook(e) == SubSeq(e.ev, 1, 2) = "h:" /\ e.ev \notin {"h:backoff.next", "h:wl.e
 Cfg(e) == [ObsInit EXCEPT !.cfgErrors = IF "errors" \in DOMAIN e.args THEN e.args.errors ELSE FALSE,
                           !.cfgNoReconnect = IF "noreconnect" \in DOMAIN e.args THEN e.args.noreconnect ELSE FALSE,
                           !.cfgHooks = IF "hooks" \in DOMAIN e THEN e.hooks ELSE FALSE,
+                          !.cfgReverse = IF "reverse" \in DOMAIN e.args THEN e.args.reverse ELSE FALSE,
                           !.scName = IF "name" \in DOMAIN e THEN e.name ELSE ""]
 Tag(s, V) == {<<s, v[1], v[2], v[3]>> : v \in V}
 
